@@ -48,7 +48,7 @@ UNIT = dict(
   assumptions=['stub nikolaev_scq: sequential contract of unit scq, including scq.finalized.stable (fails on the unrepaired tree)',
                'stub guard_ptr: contract of the reclaimer units (acquire returns a protected snapshot of the cell; reclaim retires the node once)',
                'SEQ: queue states with at most 2 linked nodes (+1 freshly allocated); linearizability under interleaving is the lemma of C04'],
-  consts=[dict(name='indexes_per_cacheline', file=S, regex=r'static constexpr std::size_t indexes_per_cacheline = ([^;]+);',
+  consts=[dict(name='XV_POP_OPTIONAL_TARGET', file=Q, regex=r'::pop\(\) -> std::optional<value_type> \{\s*return (\w+)\(\s*\[\]\(auto& v\)'), dict(name='indexes_per_cacheline', file=S, regex=r'static constexpr std::size_t indexes_per_cacheline = ([^;]+);',
                subst=[(r'cacheline_size / sizeof\(index_t\)', '64 / sizeof(uint64_t)')]),
           dict(name='remap_shift', file=Q, regex=r'static constexpr unsigned remap_shift = ([^;]+);', subst=[(r'detail::nikolaev_scq::', '')])],
   ctypes={'value_type': 'T'},      # for helpers that are followed automatically
@@ -83,6 +83,10 @@ UNIT = dict(
          subst=[(r'\bresult\b', '(*result_p)', 'result_ref'), (r'\bv\b', '(*v_p)', 'v_ref')],
          must_fire={'subst:move_assign': 1, 'subst:result_ref': 1, 'subst:v_ref': 1}),
     dict(id='try_pop_empty', file=Q, sig=r'\[\]\(\)(?=\s*\{)', c_sig='static _Bool nq_try_pop_empty(void)', must_fire={}),
+    # pop(): the std::optional flavour - its two lambdas, extracted as functions (std::optional<value_type> is a {present, value} pair; constructing it from std::move(v) is XV_OPT_FROM_MOVED)
+    dict(id='pop_success', file=Q, sig=r'\[\]\(auto& v\) -> std::optional<value_type> ', c_sig='static struct xv_opt nq_pop_success(T* v_p)',
+         pre_subst=[(r'return std::move\((\w+)\);', r'return XV_OPT_FROM_MOVED(\1);', 'opt_from_moved')], subst=[(r'\bv\b', '(*v_p)', 'v_ref')], must_fire={'subst:opt_from_moved': 1, 'subst:v_ref': 1}),
+    dict(id='pop_empty', file=Q, sig=r'\[\]\(\) -> std::optional<value_type> ', c_sig='static struct xv_opt nq_pop_empty(void)', pre_subst=[(r'std::nullopt', 'XV_NULLOPT', 'nullopt')], must_fire={'subst:nullopt': 1}),
     dict(QUEUE, id='do_pop', sig=r'auto nikolaev_queue<T, Policies\.\.\.>::do_pop\(SuccessFunc successFunc, EmptyFunc emptyFunc\)',
          c_sig='static _Bool nq_do_pop(struct nq* self, T* successFunc, int emptyFunc)',
          calls={'successFunc': 'XV_CALL_SUCCESS', 'emptyFunc': 'XV_CALL_EMPTY'},
@@ -101,7 +105,7 @@ UNIT = dict(
          subst=[(r'\bresult\b', '(*result_p)', 'result_ref')], self_calls={'do_pop': 'nq_do_pop'},
          must_fire={'lambda': 2, 'subst:result_ref': 1, 'self_call:do_pop': 1}),
   ],
-  runs=[dict(id='%s_c%d' % (op, c), entry='h_' + op, defs={'CAP': c}, unwind=3 * c + 2, unwindset=['nq_push.0:4', 'nq_do_pop.0:4', 'nq_dtor.0:4', 'nq_node_dtor.0:%d' % (c + 2)], tiers=tiers, cls='shape-complete',
+  runs=[dict(id='pop_optional', entry='h_pop_optional', cls='unbounded', note='the functors of pop() against those of try_pop, every element value')] + [dict(id='%s_c%d' % (op, c), entry='h_' + op, defs={'CAP': c}, unwind=3 * c + 2, unwindset=['nq_push.0:4', 'nq_do_pop.0:4', 'nq_dtor.0:4', 'nq_node_dtor.0:%d' % (c + 2)], tiers=tiers, cls='shape-complete',
             note=note)
         for op, note in (('node_ctor', 'both node constructors'), ('node_try_push', 'from ANY node state of Inv_N incl. finalized'), ('steal', 'fresh private node'),
                          ('node_dtor', 'from ANY node state'), ('push', 'queue of 1 or 2 nodes in any Inv_N state, tail possibly lagging'),
@@ -113,6 +117,7 @@ UNIT = dict(
     dict(id='push_int_c2', entry='h_push_int', mode='INT', defs={'CAP': 2}, unwind=8, cls='unbounded', note='[INT] as pop_int_c2'),
   ],
   obligations={
+    'nq.pop_optional.same_as_try_pop': dict(deciding=True, text='pop() forwards to the same do_pop as try_pop; its success functor moves the element out of the cell exactly as try_pop does (the optional holds the value, the cell is left moved-from and alive for do_pop to destroy), its empty functor yields an empty optional'),
     'nq.sync.acquire': dict(deciding=True, text='sync precondition [INT runs]: the guard acquisitions of _tail / _head and the loads of a node\'s _next are acquire-or-stronger (they are how a node linked by another thread\'s release CAS is reached); the release side is part of nq.commit'),
     'nq.scq.requires': dict(deciding=True, text='every ring operation is called with (entries_per_node, remap_shift), an index < entries_per_node that is outside that ring; enqueue<false,false> only on the never-finalized free ring; set_threshold(3*entries_per_node-1)'),
     'nq.guard.protected': dict(deciding=True, text='a node is dereferenced only through the guard that currently protects it (or while it is still private / in the destructor), never after reclaim or delete'),
@@ -140,7 +145,7 @@ UNIT = dict(
   },
   replays={k: dict(src='replay_nq.cpp') for k in ('nq.push.appends', 'nq.push.rollback', 'nq.push.hand_over', 'nq.pop.empty_iff', 'nq.pop.takes_first', 'nq.pop.hand_over', 'nq.own.exactly_once', 'nq.dtor.owns', 'nq.node_dtor.owned_only', 'nq.inv.preserved')},
   loop_obligation={'POP': 'nq.inv.preserved', 'PUSH': 'nq.push.rollback'},
-  canaries=['pop_int.took', 'pop_int.empty', 'commit.cas_checked', 'push_int.returned', 'push_int.linked', 'node_ctor.value', 'node_ctor.empty', 'node_push.stored', 'node_push.full', 'node_push.rolled_back', 'steal.done', 'node_dtor.full', 'node_dtor.empty',
+  canaries=['pop_optional.reached', 'pop_int.took', 'pop_int.empty', 'commit.cas_checked', 'push_int.returned', 'push_int.linked', 'node_ctor.value', 'node_ctor.empty', 'node_push.stored', 'node_push.full', 'node_push.rolled_back', 'steal.done', 'node_dtor.full', 'node_dtor.empty',
             'node_dtor.finalized', 'push.in_tail_node', 'push.new_node', 'push.rolled_back_then_new_node', 'push.helped_tail', 'push_race.third_node', 'push_race.into_competitor_node', 'pop.took', 'pop.empty', 'pop.node_drained',
             'ctor.done', 'dtor.two_nodes', 'dtor.one_node'],
 )
